@@ -604,13 +604,14 @@ fn convert_class_names_and_rpx_in_block(input: &mut StepParser, ss: &mut StyleSh
                     }
                     Token::Function(func) => {
                         let func: &str = func;
-                        let config = if func == "calc" {
-                            Some(ConvertOptions { in_calc: true })
-                        } else {
-                            None
-                        };
+                        let is_math = func == "calc";
                         let close = ss.append_nested_block(next.clone(), input);
-                        convert_rpx_in_block(input, ss, config);
+                        if is_math {
+                            convert_rpx_in_block(input, ss, Some(ConvertOptions { in_calc: true }));
+                        } else {
+                            // e.g. `:not(...)` `:is(...)` : the arguments are selectors again
+                            convert_class_names_and_rpx_in_block(input, ss);
+                        }
                         ss.append_nested_block_close(close, input);
                         in_class = false;
                     }
